@@ -237,7 +237,7 @@ func ruleC11Sync(c *Ctx) {
 		R := NewRenderer(fn)
 		var slices []ssa.Instruction
 		eachInstr(fn, func(in ssa.Instruction) {
-			if s, ok := in.(*ssa.Slice); ok && strings.HasSuffix(R.V(s), "[+1:+phi{* | phi{* | 0}}]") {
+			if s, ok := in.(*ssa.Slice); ok && strings.HasSuffix(R.V(s), "[+1:+phi{* | 0}]") {
 				slices = append(slices, in)
 			}
 		})
@@ -247,7 +247,7 @@ func ruleC11Sync(c *Ctx) {
 		} else {
 			c.Guard(rule, fn, slices[:1], "candidates = chain[1:indx]", nil,
 				atom("checkpoint found in chain", "phi{false | true}"),
-				atom("checkpoint not base nor the one above it", "+phi{* | phi{* | 0}} -2 >=0"),
+				atom("checkpoint not base nor the one above it", "+phi{* | 0} -2 >=0"),
 				atom("chain longer than head+latest+base", "+len("+chain+") -4 >=0"),
 				atom("checkpoint given", neAtom(`""`, "$1")))
 			// the index is where the checkpoint was found
@@ -277,7 +277,7 @@ func ruleC11Sync(c *Ctx) {
 				c.Bad(rule, FnName(fn)+" | chain walked base first", "", "the base-first copy of the chain is built differently", nil)
 			}
 		}
-		cand := chain + "[+1:+phi{* | phi{* | 0}}][*]"
+		cand := chain + "[+1:+phi{* | 0}][*]"
 		D := fRep + "ListDisks($0)[" + cand + "]"
 		Pp := fRep + "ListDisks($0)[" + D + ".Parent]"
 		var names []ssa.Instruction
@@ -410,7 +410,7 @@ func ruleC19Clone(c *Ctx) {
 				at = at.Neg()
 			}
 			s := at.String()
-			return strings.HasPrefix(s, "phi{") && strings.HasSuffix(s, "| true}")
+			return strings.HasPrefix(s, "phi{") && strings.Contains(s, "true") && !strings.HasPrefix(s, "!")
 		}})
 		// snapFound is set only where the chain element equals volume-snap-<S>.img
 		fnd := false
